@@ -975,7 +975,8 @@ namespace avel {
         auto should_offset = abs(frac) >= vec4x64f{0.5};
         auto ret = whole + keep(should_offset, offset);
 
-        return ret;
+        // whole + 0.0 is +0.0 for a negative zero, so restore the sign of the argument
+        return copysign(ret, v);
     }
 
     [[nodiscard]]
